@@ -71,6 +71,30 @@ TRANSFORMS = {"se3": geom.sim_matrix(T_R, T_t, 1.0),
 
 
 EPOCH = 1.5e9
+# geometry variants of the first estimate (TUM only; used by C01/C02):
+#  "m": a left-handed copy (y mirrored) - its best similarity to the
+#       reference needs the reflection handling of the alignment
+#  "f": reference and estimate far from the origin (map coordinates)
+FAR = np.array([4620.37, 54280.91, 310.55])
+_MIR = np.diag([1.0, -1.0, 1.0])
+
+
+AFFIX = {"est1": "x_ref", "est2": "ref_y"}
+
+
+def geometry_variant(ref, est, geometry):
+    if geometry == "same":
+        # the reference file given as the estimate as well
+        return ref, RTraj(list(ref.Rs), list(ref.ps), list(ref.stamps))
+    if geometry == "m":
+        return ref, RTraj([_MIR @ R @ _MIR for R in est.Rs],
+                          [_MIR @ p for p in est.ps], list(est.stamps))
+    if geometry == "f":
+        return (RTraj(list(ref.Rs), [p + FAR for p in ref.ps],
+                      list(ref.stamps)),
+                RTraj(list(est.Rs), [p + FAR for p in est.ps],
+                      list(est.stamps)))
+    return ref, est
 
 
 def write_fixture(wd):
@@ -90,6 +114,19 @@ def write_fixture(wd):
         rfiles.write_tum(os.path.join(wd, name + "_e.txt"), es, t.ps, t.Rs)
         rfiles.write_euroc(os.path.join(wd, name + "_e.csv"),
                            [int(round(x * 1e9)) for x in es], t.ps, t.Rs)
+    # the same estimates under file names that contain the reference's file
+    # name as a suffix / prefix ("any set of trajectory files")
+    for src, dst in AFFIX.items():
+        with open(os.path.join(wd, src + ".txt")) as f:
+            text = f.read()
+        with open(os.path.join(wd, dst + ".txt"), "w") as f:
+            f.write(text)
+    for g in ("m", "f"):
+        r_g, e_g = geometry_variant(ref, est1, g)
+        rfiles.write_tum(os.path.join(wd, "ref_%s.txt" % g), r_g.stamps,
+                         r_g.ps, r_g.Rs)
+        rfiles.write_tum(os.path.join(wd, "est1_%s.txt" % g), e_g.stamps,
+                         e_g.ps, e_g.Rs)
     # KITTI: equal lengths required for alignment -> first 6 poses of each
     for name, t in (("ref", ref), ("est1", est1), ("est2", est2)):
         rfiles.write_kitti(os.path.join(wd, name + ".kit"), t.ps[:6], t.Rs[:6])
@@ -132,8 +169,9 @@ for side in ("left", "right"):
     for inv in (False, True):
         for mat in ("se3", "sim3"):
             for form in ("npy", "mat", "json"):
-                props = (False, True) if side == "right" else (False, )
-                for prop in props:
+                # (--propagate_transform with --transform_left: the switch
+                # only concerns right-hand side transformations)
+                for prop in (False, True):
                     TRANSF.append((side, inv, prop, mat, form))
         TRANSF.append((side, inv, False, "int", "npy"))
 
@@ -141,8 +179,10 @@ DIMS = [
     ("nfiles", [1, 2]),
     ("downsample", [None, 5]),
     # (0.5 m, 30 deg): mostly distance-driven; (100 m, 40 deg): purely
-    # angle-driven on the fixture (every pose is kept by its rotation)
-    ("motion_filter", [None, (0.5, 30.0), (100.0, 40.0)]),
+    # angle-driven on the fixture (every pose is kept by its rotation);
+    # (2.5 m, 170 deg): a distance threshold spanning several poses of the
+    # zig-zag path (travelled length differs from the straight-line distance)
+    ("motion_filter", [None, (0.5, 30.0), (100.0, 40.0), (2.5, 170.0)]),
     ("merge", [False, True]),
     ("t_offset", [0.0, 0.125]),
     ("align", ALIGN),
@@ -169,6 +209,8 @@ def argv_of(pt):
     fmt = pt.get("fmt", "tum")
     ext = {"tum": ".txt", "kitti": ".kit", "euroc": ".csv"}[fmt]
     files = ["est1" + ext] + (["est2" + ext] if pt["nfiles"] == 2 else [])
+    if pt.get("names") == "affix":
+        files = [AFFIX[f[:-len(ext)]] + ext for f in files]
     argv = [fmt] + files
     al = pt["align"]
     if al != "none":
@@ -207,9 +249,11 @@ def expected(pt):
     pl.Refusal / pl.Ambiguous"""
     fmt = pt.get("fmt", "tum")
     ref, est1, est2 = load_model(fmt)
-    trajs = {"est1": est1}
+    n1, n2 = ("est1", "est2") if pt.get("names") != "affix" else (
+        AFFIX["est1"], AFFIX["est2"])
+    trajs = {n1: est1}
     if pt["nfiles"] == 2:
-        trajs["est2"] = est2
+        trajs[n2] = est2
     al = pt["align"]
     use_ref = al != "none"
     if pt.get("downsample"):
@@ -436,6 +480,14 @@ def points(ctx):
                 ("t_max_diff", [0.01, 0.3]), ("export", ["tum", "kitti"])]
         for q in lattice.product(proc):
             pts.append(dict(q, transform=TRANSF[0]))
+    # file names that contain the reference's name x every use of the
+    # reference
+    nm = [("names", ["affix"]), ("nfiles", [1, 2]), ("align", ALIGN),
+          ("downsample", [None, 5]), ("merge", [False, True]),
+          ("export", ["tum", "kitti"]), ("project", [None, "xy"])]
+    for q in lattice.product(nm):
+        pts.append(dict(q, transform=TRANSF[0], motion_filter=None,
+                        t_offset=0.0, n_to_align=-1, t_max_diff=0.01))
     fpts = lattice.product(FORMAT_DIMS) if ctx.thorough else \
         lattice.pairwise(FORMAT_DIMS, seed=ctx.seed)
     return pts + fpts
@@ -451,7 +503,9 @@ def run(ctx):
         (", ".join("%s(%d)" % (n, len(v)) for n, v in DIMS),
          "full product" if ctx.thorough else
          "pairwise-covering subset + full transformation sub-lattice + full "
-         "product of the processing options"))
+         "product of the processing options") +
+        "; + file names containing the reference's file name as suffix / "
+        "prefix x nfiles x alignment x downsample x merge x export x project")
     acc.bounds = {"lattice_points": len(pts)}
     acc.exhaustive = True
     acc.assumptions = [
